@@ -491,6 +491,12 @@ class Flow(object):
             if isinstance(op, ast.RShift) and r.is_const() and \
                     r.const_value() >= 0:
                 return self.fdiv(l, P.const(2 ** int(r.const_value())))
+            if isinstance(op, ast.LShift) and not r.is_const():
+                # x << e  ==  x * 2**e : one canonical power-of-two atom
+                return l * self._pow2(r)
+            if isinstance(op, ast.Pow) and l == P.const(2) and \
+                    not r.is_const():
+                return self._pow2(r)
             if isinstance(op, ast.FloorDiv):
                 return self.fdiv(l, r)
             if isinstance(op, ast.Mod):
@@ -671,6 +677,10 @@ class Flow(object):
                                    ("call", name, args, kw))
         nm = "call:%s@%d.%d" % (full, node.id, getattr(e, "col_offset", 0))
         return self._atom(nm, {node.id}, ("impure", e))
+
+    def _pow2(self, e):
+        name = "pow2(%r)" % (e,)
+        return self._composite(name, [e], ("pow2", e))
 
     def fdiv(self, l, r):
         P = Poly
